@@ -506,6 +506,14 @@ def gen_centroid_table():
                            for x in ast.walk(loop))
     adds_origin = sum(1 for x in ast.walk(loop) if isinstance(x, ast.BinOp) and isinstance(x.op, ast.Add)
                       and 'slices_large' in ast.unparse(x) and '.start' in ast.unparse(x))
+    # centroid_quadratic: the start pixel of a supplied (xpeak, ypeak) is py2intround of each (ties away from zero; Model.Centroid.py2intround)
+    cq = next((n for n in tree.body if isinstance(n, ast.FunctionDef) and n.name == 'centroid_quadratic'), None)
+    starts = {}
+    for x in (ast.walk(cq) if cq is not None else ()):
+        if isinstance(x, ast.Assign) and len(x.targets) == 1 and isinstance(x.targets[0], ast.Name) and x.targets[0].id in ('xidx', 'yidx') \
+                and isinstance(x.value, ast.Call) and isinstance(x.value.func, ast.Name) and len(x.value.args) == 1 and isinstance(x.value.args[0], ast.Name):
+            starts.setdefault(x.targets[0].id, []).append((x.value.func.id, x.value.args[0].id))
+    quad_start_ok = starts.get('xidx') == [('py2intround', 'xpeak')] and starts.get('yidx') == [('py2intround', 'ypeak')]
     out = ('/- GENERATED by tools/extract_tables.py from photutils/centroids/core.py (centroid_sources loop) '
            f'(sha256/16 {sha(src)}). DO NOT EDIT. -/\n'
            'import PhotVerif.Model.Prelude\nnamespace PhotVerif.Gen.CentroidTable\n\n'
@@ -514,7 +522,9 @@ def gen_centroid_table():
            f'/-- the dict passed to the centroid function is created anew for every source -/\n'
            f'def kwargsFreshPerSource : Bool := {"true" if fresh_per_source else "false"}\n'
            f'/-- number of `+ slices_large[k].start` re-basing additions in the loop (x and y) -/\n'
-           f'def originAdditions : Nat := {adds_origin}\n\n'
+           f'def originAdditions : Nat := {adds_origin}\n'
+           f'/-- `centroid_quadratic`: a supplied start is turned into a pixel with xidx = py2intround(xpeak), yidx = py2intround(ypeak) only -/\n'
+           f'def quadStartUsesPy2intround : Bool := {"true" if quad_start_ok else "false"}\n\n'
            'end PhotVerif.Gen.CentroidTable\n')
     return 'CentroidTable.lean', src, out
 
@@ -877,6 +887,15 @@ def gen_psf_table():
     ung_ok = body(ung) == 'iterable=_flatten(iterable);returnself._order_by_id(iterable)'
     obi_ok = body(obi) == "return[iterable[i]foriinself._group_results['ungroup_indices']]"
     b = lambda v: 'true' if v else 'false'
+    # _prepare_init_params: the grouper is consulted only when the table has no group_id column
+    pip = _cls_method(tree, 'PSFPhotometry', '_prepare_init_params')
+    supplied_wins = False
+    for x in (ast.walk(pip) if pip is not None else ()):
+        if isinstance(x, ast.If) and ast.unparse(x.test).replace('"', "'") == "'group_id' not in init_params.colnames":
+            inside = {id(c) for c in ast.walk(x)}
+            gcalls = [c for c in ast.walk(pip) if isinstance(c, ast.Call) and ast.unparse(c.func) == 'self.grouper']
+            sets = [a for a in ast.walk(pip) if isinstance(a, ast.Assign) and any(ast.unparse(tg).replace('"', "'") == "init_params['group_id']" for tg in a.targets)]
+            supplied_wins = bool(gcalls) and all(id(c) in inside for c in gcalls) and bool(sets) and all(id(a) in inside for a in sets)
     out = ('/- GENERATED by tools/extract_tables.py from photutils/psf/photometry.py (reads of _group_results in PSFPhotometry) '
            f'(sha256/16 {sha(src)}). DO NOT EDIT. -/\n'
            'import PhotVerif.Model.Prelude\nnamespace PhotVerif.Gen.PsfTable\n\n'
@@ -886,7 +905,9 @@ def gen_psf_table():
            '/-- `_ungroup(x) = _order_by_id(_flatten(x))` -/\n'
            f'def ungroupFlattensThenOrders : Bool := {b(ung_ok)}\n'
            "/-- `_order_by_id(x) = [x[i] for i in ungroup_indices]` -/\n"
-           f'def orderByIdIndexesWithUngroupIndices : Bool := {b(obi_ok)}\n\n'
+           f'def orderByIdIndexesWithUngroupIndices : Bool := {b(obi_ok)}\n'
+           "/-- `_prepare_init_params`: every call of the grouper and every assignment of the group_id column sits under the test that the table has no group_id column -/\n"
+           f'def suppliedGroupIdWins : Bool := {b(supplied_wins)}\n\n'
            'end PhotVerif.Gen.PsfTable\n')
     return 'PsfTable.lean', src, out
 
